@@ -315,6 +315,7 @@ func runC07(c *Ctx) {
 			}
 		}
 	}
+	c07Ending(c)
 	c07SubAckVectors(c)
 	if last != nil {
 		c.Sample(map[string]any{"wire": last.TraceStrings()})
@@ -385,5 +386,79 @@ func c07SubAckVectors(c *Ctx) {
 			Observe: func() uint64 { return net.TraceHash() },
 		}
 		c.Explore(sc)
+	}
+}
+
+// c07Ending: part E.  No acknowledgement is ever delivered; the connection is ended while the
+// request is pending (Disconnect by another task, local Close, peer close).  The call must not
+// report success.
+func c07Ending(c *Ctx) {
+	c.Bound("E", "each request kind (QoS 2 also between PUBREC and PUBCOMP) pending with no acknowledgement while another task ends the connection by Disconnect / Close / the peer closes; P<=2; the call must return an error, never nil")
+	type variant struct {
+		kind string
+		rec  bool // answer PUBREC so that the QoS 2 publish waits for PUBCOMP
+	}
+	for _, v := range []variant{{"p1", false}, {"p2", false}, {"p2", true}, {"sub1", false}, {"unsub", false}} {
+		for _, end := range []string{"disconnect", "close", "peer-close"} {
+			v, end := v, end
+			var net *env.Net
+			sc := &vrt.Scenario{
+				Name:  fmt.Sprintf("C07/E/%s.rec=%v/%s", v.kind, v.rec, end),
+				Bound: vrt.Budget{P: 2},
+				Body: func() {
+					net = env.NewNet()
+					s := env.NewScript(net)
+					s.AutoConnAck = true
+					s.OnPacket = func(_ *env.Script, p *env.Packet) {
+						if p.Type == env.PUBLISH && p.QoS == 2 && v.rec {
+							s.Conn.Send(env.EncAck(env.PUBREC, p.ID), "")
+						}
+						if p.Type == env.DISCONNECT {
+							s.Conn.PeerClose("DISCONNECT received")
+						}
+					}
+					cli := &mqtt.BaseClient{Transport: s.Conn}
+					if _, err := cli.Connect(vctx.Background(), "c07"); err != nil {
+						vrt.Failf("harness", "connect: %v", err)
+						return
+					}
+					returned := false
+					var err error
+					vrt.Go("caller", func() {
+						ctx := vctx.Background()
+						switch v.kind {
+						case "p1":
+							err = cli.Publish(ctx, &mqtt.Message{Topic: "t", QoS: mqtt.QoS1, Payload: []byte("x")})
+						case "p2":
+							err = cli.Publish(ctx, &mqtt.Message{Topic: "t", QoS: mqtt.QoS2, Payload: []byte("x")})
+						case "sub1":
+							_, err = cli.Subscribe(ctx, mqtt.Subscription{Topic: "a", QoS: mqtt.QoS1})
+						case "unsub":
+							err = cli.Unsubscribe(ctx, "a")
+						}
+						returned = true
+					})
+					vrt.Go("ender", func() {
+						switch end {
+						case "disconnect":
+							cli.Disconnect(vctx.Background())
+						case "close":
+							cli.Close()
+						case "peer-close":
+							s.Close()
+						}
+					})
+					vrt.Quiesce()
+					if returned && err == nil {
+						vrt.Failf("c07/success-without-ack:"+v.kind+":"+end, "%s returned nil although no acknowledgement was ever sent (connection ended by %s)\n wire:\n  %s", v.kind, end, strings.Join(net.TraceStrings(), "\n  "))
+					}
+					if !returned {
+						vrt.Failf("c07/never-returned:"+v.kind+":"+end, "%s did not return after the connection ended (%s)", v.kind, end)
+					}
+				},
+				Observe: func() uint64 { return net.TraceHash() },
+			}
+			c.Explore(sc)
+		}
 	}
 }
